@@ -18,6 +18,7 @@
 import EvalFilter.Model.Parser
 import EvalFilter.Props.Tables
 import EvalFilter.Proofs.Pratt
+import EvalFilter.Proofs.PrattTernary
 
 namespace EvalFilter.Props.C12
 open EvalFilter EvalFilter.Parser
@@ -285,5 +286,34 @@ theorem C12_round_trip_example_wf :
     (T.node ⟨.ASTERISK, ['*']⟩ (.node ⟨.PLUS, ['+']⟩ (idT ['a']) (idT ['b']))
       (.pre ⟨.MINUS, ['-']⟩ (.node ⟨.MINUS, ['-']⟩ (idT ['c']) (idT ['d'])))).wf :=
   ⟨⟨rfl, by decide⟩, ⟨⟨rfl, by decide⟩, atom_ident _, atom_ident _⟩, rfl, ⟨rfl, by decide⟩, atom_ident _, atom_ident _⟩
+
+/-- **Round trip with a ternary on top.**  `return c ? t : f;` - condition and arms any trees of the round-trip
+    theorem, printed with their necessary parentheses and NONE around them - parses to the ternary of exactly
+    those three trees: the ternary binds looser than every operator, in all three positions, for operands of
+    unbounded size.  (A ternary inside a ternary is rejected: `C12_nested_ternary_rejected`.) -/
+theorem C12_ternary_round_trip (c t e : T) (hc : c.wf) (ht : t.wf) (he : e.wf)
+    (hnc : c.nest ≤ maxNesting) (hnt : t.nest + 1 ≤ maxNesting) (hne : e.nest + 1 ≤ maxNesting) :
+    parse (retTok :: (c.pr ++ qT :: (t.pr ++ colT :: (e.pr ++ [semiTok, Token.eof])))) =
+      some [.ret (.ternary c.toExpr t.toExpr e.toExpr)] :=
+  pratt_round_trip_ternary c t e hc ht he hnc hnt hne
+
+/-- non-vacuity: `a > b ? a + 1 : b * 2` -/
+theorem C12_ternary_example :
+    let gt : Token := ⟨.GT, ['>']⟩
+    let plus : Token := ⟨.PLUS, ['+']⟩
+    let star : Token := ⟨.ASTERISK, ['*']⟩
+    let one : T := .leaf ⟨.INT, ['1']⟩ (.intLit ['1'] 1)
+    let two : T := .leaf ⟨.INT, ['2']⟩ (.intLit ['2'] 2)
+    let c : T := .node gt (idT ['a']) (idT ['b'])
+    let t : T := .node plus (idT ['a']) one
+    let e : T := .node star (idT ['b']) two
+    (c.pr ++ qT :: (t.pr ++ colT :: e.pr)).map (·.lit) = [['a'], ['>'], ['b'], ['?'], ['a'], ['+'], ['1'], [':'], ['b'], ['*'], ['2']] ∧
+    c.nest ≤ maxNesting ∧ t.nest + 1 ≤ maxNesting ∧ e.nest + 1 ≤ maxNesting := by
+  decide
+
+theorem C12_ternary_example_wf :
+    (T.node ⟨.GT, ['>']⟩ (idT ['a']) (idT ['b'])).wf ∧
+    (T.node ⟨.PLUS, ['+']⟩ (idT ['a']) (.leaf ⟨.INT, ['1']⟩ (.intLit ['1'] 1))).wf :=
+  ⟨⟨⟨rfl, by decide⟩, atom_ident _, atom_ident _⟩, ⟨rfl, by decide⟩, atom_ident _, atom_int _ _ (by decide)⟩
 
 end EvalFilter.Props.C12
